@@ -34,6 +34,9 @@ pub enum OtherDef {
 pub struct EnvX {
     pub others: Vec<OtherDef>,
     pub base: Envr,
+    /// per variable: `l` local of `t`, `g` extern global (implicitly const: its type must say so), `s` static global,
+    /// `p` parameter of `t`
+    pub kinds: Vec<char>,
 }
 
 fn show_other(d: &OtherDef) -> String {
@@ -64,12 +67,43 @@ fn parse_other(s: &str) -> Option<OtherDef> {
 
 pub fn show_envx(e: &EnvX) -> String {
     let others = if e.others.is_empty() { "-".to_string() } else { e.others.iter().map(show_other).collect::<Vec<_>>().join(";") };
-    format!("{}\t{}", others, show_env(&e.base))
+    let vars = if e.base.vars.is_empty() {
+        "-".to_string()
+    } else {
+        e.base
+            .vars
+            .iter()
+            .zip(&e.kinds)
+            .map(|(t, k)| if *k == 'l' { show_ty(*t) } else { format!("{}:{}", k, show_ty(*t)) })
+            .collect::<Vec<_>>()
+            .join(",")
+    };
+    let rest = show_env(&e.base);
+    let rest = rest.split_once('\t').map(|x| x.1.to_string()).unwrap_or_default();
+    format!("{}\t{}\t{}", others, vars, rest)
 }
 
 pub fn parse_envx(others: &str, vars: &str, funcs: &str, ret: &str) -> Option<EnvX> {
     let others: Option<Vec<OtherDef>> = if others == "-" { Some(vec![]) } else { others.split(';').map(parse_other).collect() };
-    Some(EnvX { others: others?, base: parse_env(vars, funcs, ret)? })
+    let mut kinds = Vec::new();
+    let mut plain_vars = Vec::new();
+    if vars != "-" {
+        for v in vars.split(',') {
+            match v.split_once(':') {
+                Some((k, t)) if k.len() == 1 && "gsp".contains(k) => {
+                    kinds.push(k.chars().next()?);
+                    plain_vars.push(t);
+                }
+                Some(_) => return None,
+                None => {
+                    kinds.push('l');
+                    plain_vars.push(v);
+                }
+            }
+        }
+    }
+    let pv = if plain_vars.is_empty() { "-".to_string() } else { plain_vars.join(",") };
+    Some(EnvX { others: others?, base: parse_env(&pv, funcs, ret)?, kinds })
 }
 
 // ------------------------------------------------------------------------------------------- spelling
@@ -126,6 +160,23 @@ impl EnvX {
             }
             _ => Some(format!("({})0", self.spell_base(t.layer)?)),
         }
+    }
+
+    fn without_const(&self, t: Ty) -> Ty {
+        match self.other(t.layer) {
+            Some(OtherDef::Array(elem, n)) => {
+                let e = Ty { mods: Mods(elem.mods.0 & !1), layer: elem.layer };
+                match self.others.iter().position(|d| *d == OtherDef::Array(e, *n)) {
+                    Some(k) => Ty { mods: t.mods, layer: Layer::Other(k as u32) },
+                    None => t,
+                }
+            }
+            _ => Ty { mods: Mods(t.mods.0 & !1), layer: t.layer },
+        }
+    }
+
+    pub fn nlocals(&self) -> usize {
+        self.kinds.iter().filter(|k| **k == 'l').count()
     }
 
     fn is_const_decl(&self, t: Ty) -> bool {
@@ -304,8 +355,34 @@ impl EnvX {
             None => "void".to_string(),
             Some(t) => self.spell(t)?,
         };
-        s.push_str(&format!("{} t() {{\n", ret));
+        let mut params = Vec::new();
         for (i, v) in env.vars.iter().enumerate() {
+            let name = format!("v{}", i);
+            match self.kinds[i] {
+                'g' => {
+                    // extern: implicitly const, so the request's type must be const and the keyword is not written
+                    if !self.is_const_decl(*v) {
+                        return None;
+                    }
+                    s.push_str(&format!("{};\n", self.spell_decl(self.without_const(*v), &name)?));
+                }
+                's' => {
+                    let d = self.spell_decl(*v, &name)?;
+                    if self.is_const_decl(*v) {
+                        s.push_str(&format!("static {} = {};\n", d, self.zero_init(*v)?));
+                    } else {
+                        s.push_str(&format!("static {};\n", d));
+                    }
+                }
+                'p' => params.push(self.spell_decl(*v, &name)?),
+                _ => {}
+            }
+        }
+        s.push_str(&format!("{} t({}) {{\n", ret, params.join(", ")));
+        for (i, v) in env.vars.iter().enumerate() {
+            if self.kinds[i] != 'l' {
+                continue;
+            }
             let d = self.spell_decl(*v, &format!("v{}", i))?;
             if self.is_const_decl(*v) {
                 s.push_str(&format!("    {} = {};\n", d, self.zero_init(*v)?));
@@ -441,6 +518,13 @@ impl<'a> DumpX<'a> {
                 let mut l = vec![atom("op"), atom(&format!("{:?}", op))];
                 l.extend(args.iter().map(|x| self.expr(x)));
                 list(l)
+            }
+            ir::Expression::Global(id) => {
+                let name: &str = &m.global_registry[id.0 as usize].name.node;
+                match name.strip_prefix('v').and_then(|x| x.parse::<u32>().ok()) {
+                    Some(i) => list(vec![atom("var"), atom(&i.to_string())]),
+                    None => list(vec![atom("var"), atom(&format!("?{}", name))]),
+                }
             }
             other => dump_expr(m, self.names, other),
         }
@@ -639,7 +723,25 @@ impl<'a> BuildX<'a> {
             }
             ("cast", [t, x]) => ir::Expression::Cast(self.type_id(parse_ty(atom_str(t)?)?)?, Box::new(self.expr(x)?)),
             ("op", [o, xs @ ..]) => ir::Expression::IntrinsicOp(intrinsic_by_name(atom_str(o)?)?, many(xs)?),
-            ("lit", _) | ("var", _) => Build { module: self.module, names: self.names }.expr(e)?,
+            ("var", [i]) => {
+                let name = format!("v{}", atom_str(i)?);
+                let m = self.module;
+                let local = m.variable_registry.iter().find(|id| {
+                    let n: &str = &m.variable_registry.get_local_variable(*id).name.node;
+                    n == name
+                });
+                match local {
+                    Some(id) => ir::Expression::Variable(id),
+                    None => {
+                        let g = m.global_registry.iter().position(|g| {
+                            let n: &str = &g.name.node;
+                            n == name
+                        })?;
+                        ir::Expression::Global(ir::GlobalId(g as u32))
+                    }
+                }
+            }
+            ("lit", _) => Build { module: self.module, names: self.names }.expr(e)?,
             _ => return None,
         })
     }
@@ -733,7 +835,7 @@ fn probe_x(env: &EnvX, e: &Sx) -> Result<String, String> {
         Ok(Checked::Accept(m)) => {
             let names = Names::build(&m);
             let d = DumpX { module: &m, names: &names, env };
-            Ok(match body_of(&m, env.base.vars.len()).and_then(|b| b.last()) {
+            Ok(match body_of(&m, env.nlocals()).and_then(|b| b.last()) {
                 Some(ir::Statement { kind: ir::StatementKind::Expression(x), .. }) => d.ety_string(x),
                 _ => "?".into(),
             })
@@ -816,7 +918,7 @@ impl Runner {
                 let (nodes, errors) = walk_module(&m, &names);
                 self.nodes += nodes;
                 let d = DumpX { module: &m, names: &names, env };
-                let obs = match body_of(&m, env.base.vars.len()) {
+                let obs = match body_of(&m, env.nlocals()) {
                     Some(b) => {
                         let sx = d.block(b);
                         let s = show_sx(&sx);
@@ -981,7 +1083,8 @@ pub fn base_envx(ret: Option<Ty>) -> EnvX {
     funcs.push(Func { name: 7, non_default: 0, ret: plain(Layer::Other(0)), params: vec![] });
     funcs.push(Func { name: 8, non_default: 1, ret: i, params: vec![Param { io: Io::Out, ty: f3 }] });
     funcs.push(Func { name: 9, non_default: 1, ret: i, params: vec![Param { io: Io::InOut, ty: f }] });
-    EnvX { others, base: Envr { vars, funcs, ret } }
+    let kinds = vec!['l'; vars.len()];
+    EnvX { others, base: Envr { vars, funcs, ret }, kinds }
 }
 
 const MEMBER_NAMES: &[&str] = &[
@@ -1088,6 +1191,236 @@ fn access_paths(env: &EnvX) -> Vec<Sx> {
     v.push(idx(ctor(plain(Layer::Vector(S_FLOAT, 3)), vec![var(6)]), lit("IntLiteral")));
     v.push(idx(cast(plain(Layer::Vector(S_FLOAT, 3)), var(6)), lit("IntLiteral")));
     v
+}
+
+// ------------------------------------------------------------------------------------------- projection chains
+
+/// environment of the projection-chain stream: every type shape as a non-const local, a const local, an extern global
+/// (implicitly const), a static global, a static const global, a parameter and a const parameter of `t`
+/// `o.0 = S0 { int q; float3 v; float a[2]; float2x2 m; }`, `o.1 = S1 { S0 s; float3 w; S0 r[2]; }`, `o.2 = float[3]`,
+/// `o.3 = float[2]`, `o.4 = S0[2]`, `o.5 = float3[2]`, `o.6 = float2x2[2]`, `o.7 .. o.10` = the same arrays with const elements
+pub struct ProjEnv {
+    pub env: EnvX,
+    /// (variable, declared writable)
+    pub bases: Vec<(usize, bool)>,
+    /// a non-const local of each shape, by layer (right-hand sides of struct / array assignments)
+    pub plain: Vec<(Layer, usize)>,
+}
+
+pub fn proj_envx() -> ProjEnv {
+    let f = plain(Layer::Scalar(S_FLOAT));
+    let i = plain(Layer::Scalar(S_INT));
+    let f2 = plain(Layer::Vector(S_FLOAT, 2));
+    let f3 = plain(Layer::Vector(S_FLOAT, 3));
+    let m22 = plain(Layer::Matrix(S_FLOAT, 2, 2));
+    let m32 = plain(Layer::Matrix(S_FLOAT, 3, 2));
+    let s0 = plain(Layer::Other(0));
+    let s1 = plain(Layer::Other(1));
+    let others = vec![
+        OtherDef::Struct(vec![("q".into(), i), ("v".into(), f3), ("a".into(), plain(Layer::Other(3))), ("m".into(), m22)]),
+        OtherDef::Struct(vec![("s".into(), s0), ("w".into(), f3), ("r".into(), plain(Layer::Other(4)))]),
+        OtherDef::Array(f, 3),
+        OtherDef::Array(f, 2),
+        OtherDef::Array(s0, 2),
+        OtherDef::Array(f3, 2),
+        OtherDef::Array(m22, 2),
+        OtherDef::Array(cst(f), 3),
+        OtherDef::Array(cst(s0), 2),
+        OtherDef::Array(cst(f3), 2),
+        OtherDef::Array(cst(m22), 2),
+    ];
+    // (non-const type, const type)
+    let shapes: Vec<(Ty, Ty)> = vec![
+        (f, cst(f)),
+        (f3, cst(f3)),
+        (m22, cst(m22)),
+        (m32, cst(m32)),
+        (s0, cst(s0)),
+        (s1, cst(s1)),
+        (plain(Layer::Other(2)), plain(Layer::Other(7))),
+        (plain(Layer::Other(4)), plain(Layer::Other(8))),
+        (plain(Layer::Other(5)), plain(Layer::Other(9))),
+        (plain(Layer::Other(6)), plain(Layer::Other(10))),
+    ];
+    let mut vars = Vec::new();
+    let mut kinds = Vec::new();
+    let mut bases = Vec::new();
+    let mut plainv = Vec::new();
+    for (t, c) in &shapes {
+        plainv.push((t.layer, vars.len()));
+        for (kind, ty, writable) in [('l', *t, true), ('l', *c, false), ('g', *c, false), ('s', *t, true), ('s', *c, false), ('p', *t, true), ('p', *c, false)] {
+            bases.push((vars.len(), writable));
+            vars.push(ty);
+            kinds.push(kind);
+        }
+    }
+    // helpers: a bool and an int
+    vars.push(plain(Layer::Scalar(S_BOOL)));
+    kinds.push('l');
+    vars.push(i);
+    kinds.push('l');
+    let mut funcs = Vec::new();
+    // f0..f6: one `out` parameter of each leaf type; f7: inout float; f10..f13: functions returning composites
+    for (k, t) in [f, f2, f3, m22, i, s0, s1].iter().enumerate() {
+        funcs.push(Func { name: k as u32, non_default: 1, ret: i, params: vec![Param { io: Io::Out, ty: *t }] });
+    }
+    funcs.push(Func { name: 7, non_default: 1, ret: i, params: vec![Param { io: Io::InOut, ty: f }] });
+    for (k, t) in [f3, m22, s0, s1].iter().enumerate() {
+        funcs.push(Func { name: 10 + k as u32, non_default: 0, ret: *t, params: vec![] });
+    }
+    ProjEnv { env: EnvX { others, base: Envr { vars, funcs, ret: None }, kinds }, bases, plain: plainv }
+}
+
+/// the projections that apply to a value of type `t`: (source form builder, type of the result, names a component twice)
+fn projections(env: &EnvX, t: Ty, deep: bool) -> Vec<(Box<dyn Fn(Sx) -> Sx>, Ty, bool)> {
+    let mut v: Vec<(Box<dyn Fn(Sx) -> Sx>, Ty, bool)> = Vec::new();
+    let m = |n: &'static str| -> Box<dyn Fn(Sx) -> Sx> { Box::new(move |e| mem(e, n)) };
+    let ix = || -> Box<dyn Fn(Sx) -> Sx> { Box::new(|e| idx(e, lit("IntLiteral"))) };
+    let with = |l: Layer| Ty { mods: t.mods, layer: l };
+    match t.layer {
+        Layer::Scalar(sc) => {
+            v.push((m("x"), with(Layer::Scalar(sc)), false));
+            if !deep {
+                v.push((m("xx"), with(Layer::Vector(sc, 2)), true));
+            }
+        }
+        Layer::Vector(sc, n) => {
+            v.push((m("x"), with(Layer::Scalar(sc)), false));
+            v.push((ix(), with(Layer::Scalar(sc)), false));
+            if n >= 2 {
+                v.push((m("yx"), with(Layer::Vector(sc, 2)), false));
+                if !deep {
+                    v.push((m("xx"), with(Layer::Vector(sc, 2)), true));
+                    v.push((m("xyx"), with(Layer::Vector(sc, 3)), true));
+                }
+            }
+        }
+        Layer::Matrix(sc, x, y) => {
+            v.push((ix(), with(Layer::Vector(sc, y)), false));
+            v.push((m("_m00"), with(Layer::Scalar(sc)), false));
+            if x >= 2 && y >= 2 {
+                v.push((m("_m00_m11"), with(Layer::Vector(sc, 2)), false));
+                if !deep {
+                    v.push((m("_11_11"), with(Layer::Vector(sc, 2)), true));
+                }
+            }
+        }
+        Layer::Other(k) => match env.others.get(k as usize) {
+            Some(OtherDef::Struct(ms)) => {
+                for (n, mt) in ms {
+                    let n = n.clone();
+                    v.push((Box::new(move |e| mem(e, &n)), *mt, false));
+                }
+            }
+            Some(OtherDef::Array(elem, _)) => v.push((ix(), *elem, false)),
+            None => {}
+        },
+        Layer::Enum(_) => {}
+    }
+    v
+}
+
+/// all projection chains of length 1..=depth over `e : t`: (expression, type, writable so far)
+fn chains(env: &EnvX, e: &Sx, t: Ty, writable: bool, depth: u32, out: &mut Vec<(Sx, Ty, bool)>) {
+    if depth == 0 {
+        return;
+    }
+    for (b, rt, dup) in projections(env, t, depth < 3) {
+        let pe = b(e.clone());
+        // an element / member whose own declared type is const is not writable either
+        let elem_const = match env.other(rt.layer) {
+            Some(OtherDef::Array(el, _)) => el.mods.0 & 1 != 0,
+            _ => rt.mods.0 & 1 != 0,
+        };
+        let w = writable && !dup && !elem_const;
+        out.push((pe.clone(), rt, w));
+        if !dup {
+            chains(env, &pe, rt, w, depth - 1, out);
+        }
+    }
+}
+
+fn run_projections(r: &mut Runner, rng: &mut Rng, thorough: bool, out: &mut Out) {
+    let pe = proj_envx();
+    let env = &pe.env;
+    let nb = env.base.vars.len();
+    let vb = nb - 2; // the bool
+    let out_fn = |t: Ty| -> Option<u32> {
+        if t.mods.0 & !1 != 0 {
+            return None;
+        }
+        env.base.funcs.iter().find(|f| f.name < 7 && f.params[0].ty.layer == t.layer).map(|f| f.name)
+    };
+    let mut all: Vec<(Sx, Ty, bool)> = Vec::new();
+    for (v, w) in &pe.bases {
+        let t = env.base.vars[*v];
+        // the base itself
+        let elem_const = match env.other(t.layer) {
+            Some(OtherDef::Array(el, _)) => el.mods.0 & 1 != 0,
+            _ => false,
+        };
+        all.push((var(*v), t, *w && !elem_const));
+        chains(env, &var(*v), t, *w, 3, &mut all);
+    }
+    // values that are not lvalues: function results, operator results, constructors, casts, ?:
+    let f3 = plain(Layer::Vector(S_FLOAT, 3));
+    let m22 = plain(Layer::Matrix(S_FLOAT, 2, 2));
+    let lf3 = pe.plain.iter().find(|x| x.0 == f3.layer).map(|x| x.1).unwrap_or(0);
+    let lm = pe.plain.iter().find(|x| x.0 == m22.layer).map(|x| x.1).unwrap_or(0);
+    let rvalues: Vec<(Sx, Ty)> = vec![
+        (call(10, vec![]), f3),
+        (call(11, vec![]), m22),
+        (call(12, vec![]), plain(Layer::Other(0))),
+        (call(13, vec![]), plain(Layer::Other(1))),
+        (bin("Add", var(lf3), var(lf3)), f3),
+        (bin("Multiply", var(lm), var(lm)), m22),
+        (ctor(f3, vec![var(lf3)]), f3),
+        (ctor(m22, vec![var(lm)]), m22),
+        (cast(f3, var(lf3)), f3),
+        (tern(var(vb), var(lf3), var(lf3)), f3),
+        (un("Minus", var(lf3)), f3),
+        (un("PostfixIncrement", var(lf3)), f3),
+        (icall("normalize", vec![var(lf3)]), f3),
+        (icall("transpose", vec![var(lm)]), m22),
+    ];
+    for (e, t) in &rvalues {
+        all.push((e.clone(), *t, false));
+        chains(env, e, *t, false, 3, &mut all);
+    }
+    let stride = if thorough { 1 } else { 4 };
+    let mut k = rng.below(stride);
+    for (p, t, w) in &all {
+        k += 1;
+        if k % stride != 0 {
+            continue;
+        }
+        let expect = if *w { "accept" } else { "reject" };
+        r.hist.add(if *w { "proj:writable" } else { "proj:not-writable" });
+        let numeric = is_numeric(t.layer);
+        let rhs = if numeric { lit("IntLiteral") } else { pe.plain.iter().find(|x| x.0 == t.layer).map(|x| var(x.1)).unwrap_or_else(|| p.clone()) };
+        r.progx_case(env, &body1(s_expr(bin("Assignment", p.clone(), rhs))), expect, out);
+        match (k / stride) % 4 {
+            0 if numeric => r.progx_case(env, &body1(s_expr(bin("SumAssignment", p.clone(), lit("IntLiteral")))), expect, out),
+            1 if numeric => r.progx_case(env, &body1(s_expr(un("PrefixIncrement", p.clone()))), expect, out),
+            2 if numeric => r.progx_case(env, &body1(s_expr(un("PostfixDecrement", p.clone()))), expect, out),
+            _ => {
+                if let Some(fo) = out_fn(*t) {
+                    r.progx_case(env, &body1(s_expr(call(fo, vec![p.clone()]))), expect, out);
+                }
+            }
+        }
+        if t.layer == Layer::Scalar(S_FLOAT) && t.mods.0 & !1 == 0 {
+            match (k / stride) % 3 {
+                0 => r.progx_case(env, &body1(s_expr(call(7, vec![p.clone()]))), expect, out),
+                1 => r.progx_case(env, &body1(s_expr(icall("sincos", vec![lit("Float32"), p.clone(), var(pe.plain[0].1)]))), expect, out),
+                _ => r.progx_case(env, &body1(s_expr(icall("modf", vec![lit("Float32"), p.clone()]))), expect, out),
+            }
+        }
+        // reading is always fine
+        if k % (stride * 8) == 0 {
+            r.progx_case(env, &body1(s_expr(p.clone())), "accept", out);
+        }
+    }
 }
 
 pub fn run_ext(r: &mut Runner, rng: &mut Rng, args: &Args, out: &mut Out) {
@@ -1255,6 +1588,11 @@ pub fn run_ext(r: &mut Runner, rng: &mut Rng, args: &Args, out: &mut Out) {
         r.progx_case(&env, &body1(s_ret(icall("dot", vec![var(6), var(6)]))), "any", out);
         r.progx_case(&env, &body1(s_ret(ctor(plain(Layer::Vector(S_FLOAT, 3)), vec![var(8), var(4)]))), "any", out);
     }
+
+    // (x5b) writes (assignment, compound assignment, ++/--, out / inout arguments of user and intrinsic functions) through
+    //       every projection chain (members, subscripts, swizzles, nested up to depth 3) of every kind of base: locals,
+    //       extern and static globals, parameters, const and not, and values that are not lvalues
+    run_projections(r, rng, thorough, out);
 
     // (x6) random expressions
     let n = args.n.unwrap_or(if thorough { 30000 } else { 2500 });
